@@ -8,4 +8,4 @@ for p in "$@"; do
   echo "$p: ${out:-no alarm}"
 done
 cd /repo && git checkout -- . && git status --short | head -3
-cd /verif && git checkout -- evidence
+cd /verif && git checkout -- evidence && python3 tools/extract.py >/dev/null
